@@ -212,6 +212,12 @@ def run(spec, rec):
                     rec.check("mask", not gm.any(), site="Spectrum.marginalize", tags=dict(t, mask_corners=False), observed=gm.astype(int))
                     gd = np.where(gm, 0.0, np.asarray(gotc.data))
                     rec.close("marginalize", relerr(gd, ref, scale=max(np.max(np.abs(ref)), 1e-300)), TOL, site="Spectrum.marginalize", tags=dict(t, mask_corners=False))
+            if len(over) == 1 and ok:
+                # one axis counted from the end (-1 = last population), as numpy counts axes
+                tn = dict(t, over=[over[0] - ndim], negative_index=True)
+                okn, gotn = rec.noraise("returns", lambda: fs.marginalize([over[0] - ndim]), site="Spectrum.marginalize", tags=tn)
+                if okn:
+                    judge("marginalize", gotn, ref, eids, "Spectrum.marginalize", tn)
             # the axes to sum over are a set: any order of naming them (list or tuple) gives the same spectrum
             if len(over) > 1:
                 shuffled = [int(a) for a in rng.permutation(over)]
